@@ -112,6 +112,7 @@ void Normalizer::TupleDeclaration(
 std::string Normalizer::ProcessTupleDeclaration(SyntaxTree::Node& root) {
   tupleSubstitutes.clear();
   std::string newName{ '@' };
+  std::string signature{};
 
   std::stack<const SyntaxTree::Node*> nodeStack{};
   std::stack<std::vector<Index>> pathStack{};
@@ -125,6 +126,8 @@ std::string Normalizer::ProcessTupleDeclaration(SyntaxTree::Node& root) {
     if (curNode->token.id == TokenID::ID_LOCAL) {
       const auto& name = curNode->token.data.ToText();
       newName += name;
+      signature += name;
+      signature += ',';
       tupleSubstitutes.insert({ name, curPath });
     } else if (const auto childCount = curNode->ChildrenCount(); childCount > 0) {
       for (auto child = static_cast<Index>(childCount - 1); child >= 0; --child) {
@@ -134,6 +137,16 @@ std::string Normalizer::ProcessTupleDeclaration(SyntaxTree::Node& root) {
         curPath.pop_back();
       }
     }
+  }
+  // Note: different patterns may concatenate to the same text, e.g. (a,bc) and (ab,c) - keep their names apart
+  if (const auto known = tupleNames.find(signature); known != std::end(tupleNames)) {
+    newName = known->second;
+  } else {
+    while (usedTupleNames.contains(newName)) {
+      newName += '@';
+    }
+    usedTupleNames.insert(newName);
+    tupleNames.insert({ signature, newName });
   }
   root.RemoveAll();
   root.token.data = TokenData{ newName };
